@@ -8,13 +8,16 @@ Template directives (each on its own line, starting at column 0 or indented):
         opts:  as=<newname>  ret=<name>  nth=<k>  trusted  cfg=<cfgname>
                props=C01,C05  case=<case id>[,<case id>..]  spec=<key>
                src=expanded   (slice from the macro-expanded crate instead)
+               extraction transformations (documented in rsx.TRANSFORMS): keepconst  revloops=<T>  fwdloops=<T>
+               lebytes  destruct  localconst  nestedret=<r>  nodecreases  nested  macroinst=<macro>@<file>[#k]
   //@@spec                              lines until next //@@ directive: contract header
   //@@at start|end|let <name> <k>|loop <k>|line "<text>" <k>|before_line "<text>" <k>|nested <fn>
         (nested <fn>: contract header of the fn item <fn> nested in the body; with opt nestedret=<r> its
          result is named <r>)
                                         lines until next directive: woven hint
   //@@endfn
-  //@@item <file> | <kind> | <name>    verbatim struct/const/static/type slice
+  //@@item <file> | <kind> | <name> [| pubfields | limbs | w64args | opaque | specinit | nested | nth=<k> | macroinst=..]
+                                        verbatim struct/const/static/type slice
 
 `trusted` emits the function with #[verifier::external_body] and the same
 contract text: this is a *use* of a contract; the driver pairs it with the unit
